@@ -337,7 +337,7 @@ func round3(f float64) float64 { return float64(int(f*1000+0.5)) / 1000 }
 // replay writes the replay file for a failed obligation and, where a concrete
 // input can be reconstructed, runs it against the real code.
 func (r *Report) replay(o *Obligation, dir string) (string, bool) {
-	path := filepath.Join(dir, sanitize(o.Name)+".txt")
+	path := filepath.Join(dir, fileBase(o.Name)+".txt")
 	var b strings.Builder
 	fmt.Fprintf(&b, "obligation: %s\nproperty: %s\nfunction: %s\nkind: %s\nat: %s\nclause: %s\npath: %s\nsolver: %s status=%s (%.2fs)\n",
 		o.Name, r.rc.prop, o.Func, o.Kind, o.Pos, o.Desc, o.Trace, o.Res.Solver, o.Res.Status, o.Res.Seconds)
